@@ -296,6 +296,27 @@ theorem merged_rows_are_where_they_belong_partial (c : Cfg) (hM : 0 < c.M) (hv :
   exact ⟨h1, h2, h3, h5⟩
 
 open LJT.Skip in
+/-- with merged 2:1 upsampling a skip at the end of a history that is D16-free (the skip included) is honoured exactly -/
+theorem merged_skip_honoured_exactly_partial (c : Cfg) (hM : 0 < c.M) (hv : c.v = 2) (calls : List Call) (n : Nat)
+    (hfree : d16free c (minit c) (calls ++ [.sk n]) = true) :
+    let s := (mrun c (minit c) calls).1
+    (mskip c s n).2 = min n (c.H - s.y) ∧ (mskip c s n).1.y = s.y + min n (c.H - s.y) := by
+  intro s
+  have split : ∀ (cs : List Call) (t : MSt), d16free c t (cs ++ [.sk n]) = true →
+      d16free c t cs = true ∧ d16 c (mrun c t cs).1 (.sk n) = false := by
+    intro cs
+    induction cs with
+    | nil => intro t h; simp only [List.nil_append, d16free, Bool.and_true, Bool.not_eq_true'] at h; exact ⟨rfl, by simpa [mrun] using h⟩
+    | cons a as ih =>
+      intro t h
+      simp only [List.cons_append, d16free, Bool.and_eq_true, Bool.not_eq_true'] at h
+      obtain ⟨i1, i2⟩ := ih _ h.2
+      exact ⟨by simp only [d16free, Bool.and_eq_true, Bool.not_eq_true']; exact ⟨h.1, i1⟩, by simpa [mrun] using i2⟩
+  obtain ⟨f1, f2⟩ := split calls (minit c) hfree
+  have hinv := (mrun_spec c hv hM calls (minit c) (minit_inv c hM) f1).1
+  exact (mskip_spec c hv s n hM hinv f2).2
+
+open LJT.Skip in
 /-- **Merged upsampling without vertical subsampling (4:2:2): every history delivers the right rows.** -/
 theorem merged_1v_rows_are_where_they_belong (c : Cfg) (hM : 0 < c.M) (hv : c.v = 1) (calls : List Call) :
     ∀ ip ∈ (mrun c (minit c) calls).2, ip.2.2.1 < c.M ∧ ip.2.2.2 < c.v ∧ Prov.line c ip.2 = ip.1 ∧ ip.1 < c.H := by
